@@ -301,6 +301,8 @@ class Buffer:
             self.hot[b].observations['transfer'] = None
             return False
         self._add_event(current_obs, "transfer", "started")
+        # Both tiers move data at the rate of the slower one
+        rate = min(self.hot[b].max_ingest_data_rate, self.cold[b].max_data_rate)
         while True:
             # data_transfer_time = observation_size / self.cold.max_data_rate
             #
@@ -315,11 +317,12 @@ class Buffer:
 
             check = self.cold[b].receive_observation(
                 current_obs,
-                data_left_to_transfer
+                data_left_to_transfer,
+                rate
             )
 
             data_left_to_transfer = self.hot[b].transfer_observation(
-                current_obs, self.cold[b].max_data_rate, data_left_to_transfer
+                current_obs, rate, data_left_to_transfer
             )
             if check != data_left_to_transfer:
                 raise RuntimeError(
@@ -382,6 +385,8 @@ class Buffer:
             self.cold[b].observations['transfer'] = None
             return False
         self._add_event(current_obs, "transfer", "started")
+        # Pick the slowest rate to transfer, on both sides
+        rate = min(self.hot[b].max_ingest_data_rate, self.cold[b].max_data_rate)
         while True:
             if data_left_to_transfer <= 0:
                 LOGGER.info(
@@ -393,12 +398,11 @@ class Buffer:
             check = self.hot[b].receive_observation(
                 current_obs,
                 data_left_to_transfer,
-                # Pick the slowest rate to transfer
-                min(self.hot[b].max_ingest_data_rate, self.cold[b].max_data_rate)
+                rate
             )
 
             data_left_to_transfer = self.cold[b].transfer_observation(
-                current_obs, self.cold[b].max_data_rate, data_left_to_transfer
+                current_obs, rate, data_left_to_transfer
             )
             if check != data_left_to_transfer:
                 raise RuntimeError(
@@ -832,7 +836,7 @@ class ColdBuffer:
             self.observations['transfer'] = None
         return residual_data
 
-    def receive_observation(self, observation, residual_data):
+    def receive_observation(self, observation, residual_data, data_rate=None):
         """
         For an observation that needs to be moved to ColdBuffer storage,
         we must 'receive' it.
@@ -844,21 +848,27 @@ class ColdBuffer:
 
         residual_data : int
             How much data is left to transfer
+
+        data_rate : int
+            The rate of the transfer (defaults to the ColdBuffer's own
+            max_data_rate)
         Returns
         -------
         residual_data
-            Decremented value of residual_data by the data_rate of ColdBuffer
+            Decremented value of residual_data by the data_rate
         """
 
         self.observations['transfer'] = observation
+        if data_rate is None:
+            data_rate = self.max_data_rate
 
-        if self.max_data_rate > 0:
-            if residual_data < self.max_data_rate:
+        if data_rate > 0:
+            if residual_data < data_rate:
                 self.current_capacity -= residual_data
                 residual_data = 0
             else:
-                self.current_capacity -= self.max_data_rate
-                residual_data -= self.max_data_rate
+                self.current_capacity -= data_rate
+                residual_data -= data_rate
 
         else:
             self.current_capacity -= observation.total_data_size
